@@ -406,5 +406,346 @@ theorem ordOk_nil {e : Env} {owner : Nat} {d : Dir} :
       simp only [hnb, Bool.false_eq_true, if_false, List.nil_append]
       have := ih (fun m hm => hc m (by simp [hm])) (by simpa using hs.2)
       simpa using this
+/-! Part 5: the two initialisation passes as ONE fold over "forced modules, then the list" -/
+
+/-- the effect of _mod_initialize on the registration state (it does not depend on the flag) -/
+def stepS (pers : Nat) (s : InitSt) (m : Mod) : InitSt := (initOne pers m s).2
+
+def foldS (pers : Nat) (seq : List Mod) (s : InitSt) : InitSt := seq.foldl (stepS pers) s
+
+theorem stepS_eq (pers : Nat) (s : InitSt) (m : Mod) :
+    stepS pers s m =
+      match optRegister pers s.opts m.d.opts with
+      | none => s
+      | some added =>
+        ⟨s.opts ++ added, if m.d.init.isSome then s.calls ++ [m.file] else s.calls,
+         s.regs ++ [(m.file, added)]⟩ := by
+  unfold stepS initOne
+  cases optRegister pers s.opts m.d.opts with
+  | none => rfl
+  | some added =>
+    simp only
+    cases m.d.init with
+    | none => rfl
+    | some ok => cases ok <;> rfl
+
+theorem stepS_static (pers : Nat) (s : InitSt) {m m' : Mod} (h : m.static = m'.static) :
+    stepS pers s m = stepS pers s m' := by
+  have hd : m.d = m'.d := by have := congrArg Mod.d h; simpa [Mod.static] using this
+  have hf : m.file = m'.file := by have := congrArg Mod.file h; simpa [Mod.static] using this
+  rw [stepS_eq, stepS_eq, hd, hf]
+
+theorem foldS_static (pers : Nat) : ∀ (l l' : List Mod) (s : InitSt), l.map Mod.static = l'.map Mod.static →
+    foldS pers l s = foldS pers l' s := by
+  intro l
+  induction l with
+  | nil => intro l' s h; cases l' with
+    | nil => rfl
+    | cons _ _ => simp at h
+  | cons m r ih =>
+    intro l' s h
+    cases l' with
+    | nil => simp at h
+    | cons m' r' =>
+      simp only [List.map_cons, List.cons.injEq] at h
+      simp only [foldS, List.foldl_cons]
+      rw [stepS_static pers s h.1]
+      exact ih r' _ h.2
+
+theorem initAll_state (pers : Nat) (l : List Mod) (s : InitSt) : (initAll pers l s).2 = foldS pers l s := by
+  induction l generalizing s with
+  | nil => rfl
+  | cons m r ih => simp only [initAll, foldS, List.foldl_cons]; exact ih _
+
+theorem initFirst_state (pers : Nat) (p : Mod → Bool) (l : List Mod) (s : InitSt) :
+    (initFirst pers p l s).2 = match l.find? p with
+      | some m => stepS pers s m
+      | none => s := by
+  induction l with
+  | nil => rfl
+  | cons x r ih =>
+    simp only [initFirst, List.find?_cons]
+    by_cases hp : p x = true
+    · simp [hp, stepS]
+    · have hp' : p x = false := by simpa using hp
+      simp only [hp', Bool.false_eq_true, if_false]
+      exact ih
+
+theorem find?_static (p : Mod → Bool) (hp : ∀ m, p m = p m.static) :
+    ∀ (l l' : List Mod), l'.map Mod.static = l.map Mod.static →
+      (l'.find? p).map Mod.static = (l.find? p).map Mod.static := by
+  intro l
+  induction l with
+  | nil => intro l' h; cases l' with
+    | nil => rfl
+    | cons _ _ => simp at h
+  | cons m r ih =>
+    intro l' h
+    cases l' with
+    | nil => simp at h
+    | cons m' r' =>
+      simp only [List.map_cons, List.cons.injEq] at h
+      simp only [List.find?_cons]
+      have : p m' = p m := by rw [hp m', hp m, h.1]
+      rw [this]
+      cases p m with
+      | true => simp [h.1]
+      | false => exact ih r' h.2
+
+theorem isMisc_static (nm : Str) (m : Mod) : isMisc nm m = isMisc nm m.static := rfl
+
+/-- the forced modules: for every name the first `misc` module of that name in the list -/
+def forcedMods (l : List Mod) (names : List Str) : List Mod := names.filterMap fun nm => l.find? (isMisc nm)
+
+theorem initByNames_state (pers : Nat) (l0 : List Mod) :
+    ∀ (names : List Str) (l' : List Mod) (s : InitSt), l'.map Mod.static = l0.map Mod.static →
+      (initByNames pers names l' s).2 = foldS pers (forcedMods l0 names) s := by
+  intro names
+  induction names with
+  | nil => intro l' s _; rfl
+  | cons nm rest ih =>
+    intro l' s h
+    simp only [initByNames]
+    rw [ih _ _ (by rw [initFirst_static]; exact h), initFirst_state]
+    have hf := find?_static (isMisc nm) (isMisc_static nm) l0 l' h
+    simp only [forcedMods, List.filterMap_cons]
+    cases h0 : l0.find? (isMisc nm) with
+    | none =>
+      rw [h0] at hf
+      cases h1 : l'.find? (isMisc nm) with
+      | none => rfl
+      | some x => rw [h1] at hf; simp at hf
+    | some m0 =>
+      rw [h0] at hf
+      cases h1 : l'.find? (isMisc nm) with
+      | none => rw [h1] at hf; simp at hf
+      | some x =>
+        rw [h1] at hf
+        simp only [Option.map_some, Option.some.injEq] at hf
+        simp only [foldS, List.foldl_cons]
+        rw [stepS_static pers s hf]
+
+/-- the final registration state of both passes -/
+theorem initPhase_state (pers : Nat) (misc : Option Str) (l0 : List Mod) :
+    (initPhase pers misc l0).2 =
+      foldS pers (forcedMods l0 (miscNames misc) ++ l0) ⟨baseOpts pers, [], []⟩ := by
+  unfold initPhase
+  rw [initAll_state, initByNames_state pers l0 _ l0 _ rfl]
+  rw [foldS_static pers _ l0 _ (initByNames_static pers _ l0 _)]
+  simp [foldS, List.foldl_append]
+/-! Part 6: the fold of the model simulates the greedy activation of the specification -/
+
+def Mod.pi (m : Mod) : Str × Desc := (m.file, m.d)
+
+theorem clash_iff (e : Env) (o : Str) (d : Desc) (rows : List OptRow) (h : d.opts = some rows) :
+    rowsClash e.pers o rows = (applicable e d).any (o.contains ·) := by
+  unfold rowsClash applicable
+  rw [h]
+  simp only [Option.getD_some, List.any_map, List.any_filter]
+  rfl
+
+theorem mem_rowChars_imp (pers : Nat) (rows : List OptRow) (c : Char) (h : c ∈ rowChars pers rows) :
+    c ∈ (rows.filter (·.pers &&& pers ≠ 0)).map (·.c) ∨ c = ':' := by
+  unfold rowChars at h
+  simp only [List.mem_flatMap] at h
+  obtain ⟨r, hr, hc⟩ := h
+  by_cases hp : r.pers &&& pers ≠ 0
+  · rw [if_pos hp] at hc
+    by_cases ha : r.hasArg = true
+    · simp only [ha, if_true, List.mem_cons, List.mem_nil_iff, or_false] at hc
+      rcases hc with hc | hc
+      · left; simp only [List.mem_map, List.mem_filter]; exact ⟨r, ⟨hr, by simpa using hp⟩, hc.symm⟩
+      · right; exact hc
+    · simp only [ha, Bool.false_eq_true, if_false, List.mem_singleton] at hc
+      left; simp only [List.mem_map, List.mem_filter]; exact ⟨r, ⟨hr, by simpa using hp⟩, hc.symm⟩
+  · rw [if_neg hp] at hc; simp at hc
+
+theorem mem_rowChars_of (pers : Nat) (rows : List OptRow) (c : Char)
+    (h : c ∈ (rows.filter (·.pers &&& pers ≠ 0)).map (·.c)) : c ∈ rowChars pers rows := by
+  simp only [List.mem_map, List.mem_filter] at h
+  obtain ⟨r, ⟨hr, hp⟩, hc⟩ := h
+  have hp' : r.pers &&& pers ≠ 0 := by simpa using hp
+  unfold rowChars
+  simp only [List.mem_flatMap]
+  refine ⟨r, hr, ?_⟩
+  rw [if_pos hp']
+  split <;> simp [hc]
+
+theorem applicable_eq (e : Env) (d : Desc) :
+    applicable e d = ((d.opts.getD []).filter (·.pers &&& e.pers ≠ 0)).map (·.c) := rfl
+
+/-- state of the model's fold vs. state of the specification's greedy pass -/
+structure Sim (e : Env) (U : List Mod) (s : InitSt) (taken : List Char) (acc : List Str) : Prop where
+  opts  : ∀ c, c ∈ s.opts ↔ c ∈ taken
+  colon : ':' ∈ taken
+  regs  : ∀ f, f ∈ s.regs.map (·.1) ↔ f ∈ acc
+  appl  : ∀ a ∈ U, a.file ∈ acc → ∀ c ∈ applicable e a.d, c ∈ taken
+  calls : ∀ f ∈ s.calls, f ∈ acc
+  ran   : ∀ a ∈ U, a.file ∈ acc → a.d.init.isSome = true → a.file ∈ s.calls
+  univ  : ∀ f ∈ acc, ∃ a ∈ U, a.file = f
+
+theorem any_contains_iff (l : List Char) (t : List Char) :
+    l.any (t.contains ·) = true ↔ ∃ c ∈ l, c ∈ t := by
+  simp [List.any_eq_true]
+
+theorem Sim.step {e : Env} {U : List Mod} (hU : ∀ a ∈ U, ∀ b ∈ U, a.file = b.file → a.d = b.d)
+    {s : InitSt} {taken : List Char} {acc : List Str} (h : Sim e U s taken acc) (m : Mod) (hm : m ∈ U) :
+    (m.file ∈ acc → Sim e U (stepS e.pers s m) taken acc) ∧
+    (m.file ∉ acc → (applicable e m.d).any (taken.contains ·) = true → Sim e U (stepS e.pers s m) taken acc) ∧
+    (m.file ∉ acc → (applicable e m.d).any (taken.contains ·) = false →
+      Sim e U (stepS e.pers s m) (taken ++ applicable e m.d) (acc ++ [m.file])) := by
+  -- the model's clash test is the specification's
+  have hsame : (applicable e m.d).any (s.opts.contains ·) = (applicable e m.d).any (taken.contains ·) := by
+    apply Bool.eq_iff_iff.mpr
+    rw [any_contains_iff, any_contains_iff]
+    constructor
+    · rintro ⟨c, hc, ho⟩; exact ⟨c, hc, (h.opts c).mp ho⟩
+    · rintro ⟨c, hc, ho⟩; exact ⟨c, hc, (h.opts c).mpr ho⟩
+  by_cases hany : (applicable e m.d).any (taken.contains ·) = true
+  · -- refused as a whole: nothing changes
+    have hs : stepS e.pers s m = s := by
+      rw [stepS_eq]
+      cases hopts : m.d.opts with
+      | none =>
+        exfalso
+        simp [applicable, hopts] at hany
+      | some rows =>
+        simp only [optRegister]
+        rw [clash_iff e s.opts m.d rows hopts, hsame, hany]
+        simp
+    rw [hs]
+    refine ⟨fun _ => h, fun _ _ => h, fun _ hf => ?_⟩
+    rw [hany] at hf; cases hf
+  · have hany' : (applicable e m.d).any (taken.contains ·) = false := by simpa using hany
+    -- registered: everything applicable is appended
+    have hreg : optRegister e.pers s.opts m.d.opts = some (rowChars e.pers (m.d.opts.getD [])) := by
+      cases hopts : m.d.opts with
+      | none => simp [optRegister, rowChars]
+      | some rows =>
+        simp only [optRegister]
+        rw [clash_iff e s.opts m.d rows hopts, hsame, hany']
+        simp
+    have hs : stepS e.pers s m =
+        ⟨s.opts ++ rowChars e.pers (m.d.opts.getD []),
+         if m.d.init.isSome then s.calls ++ [m.file] else s.calls,
+         s.regs ++ [(m.file, rowChars e.pers (m.d.opts.getD []))]⟩ := by
+      rw [stepS_eq, hreg]
+    have hA : ∀ c, c ∈ rowChars e.pers (m.d.opts.getD []) → c ∈ applicable e m.d ∨ c = ':' :=
+      fun c hc => mem_rowChars_imp e.pers _ c hc
+    have hB : ∀ c, c ∈ applicable e m.d → c ∈ rowChars e.pers (m.d.opts.getD []) :=
+      fun c hc => mem_rowChars_of e.pers _ c hc
+    have hnone : ∀ c ∈ applicable e m.d, c ∉ taken := by
+      intro c hc ht
+      have : (applicable e m.d).any (taken.contains ·) = true := (any_contains_iff _ _).mpr ⟨c, hc, ht⟩
+      rw [hany'] at this; cases this
+    have hcalls_sub : ∀ f ∈ (if m.d.init.isSome then s.calls ++ [m.file] else s.calls), f ∈ s.calls ∨ f = m.file := by
+      intro f hf
+      split at hf
+      · simp only [List.mem_append, List.mem_singleton] at hf; exact hf
+      · exact Or.inl hf
+    have hcalls_sup : ∀ f ∈ s.calls, f ∈ (if m.d.init.isSome then s.calls ++ [m.file] else s.calls) := by
+      intro f hf; split <;> simp [hf]
+    refine ⟨fun hin => ?_, fun _ hf => ?_, fun hnin _ => ?_⟩
+    · -- already active and (necessarily) without applicable options: a second, empty registration
+      have hempty : ∀ c, c ∉ applicable e m.d := fun c hc => hnone c hc (h.appl m hm hin c hc)
+      rw [hs]
+      refine ⟨?_, h.colon, ?_, h.appl, ?_, ?_, h.univ⟩
+      · intro c
+        simp only [List.mem_append]
+        constructor
+        · rintro (hc | hc)
+          · exact (h.opts c).mp hc
+          · rcases hA c hc with h1 | h1
+            · exact absurd h1 (hempty c)
+            · rw [h1]; exact h.colon
+        · intro hc; exact Or.inl ((h.opts c).mpr hc)
+      · intro f
+        simp only [List.map_append, List.map_cons, List.map_nil, List.mem_append, List.mem_singleton]
+        constructor
+        · rintro (hf | hf)
+          · exact (h.regs f).mp hf
+          · rw [hf]; exact hin
+        · intro hf; exact Or.inl ((h.regs f).mpr hf)
+      · intro f hf
+        rcases hcalls_sub f hf with h1 | h1
+        · exact h.calls f h1
+        · rw [h1]; exact hin
+      · intro a ha hacc hi
+        exact hcalls_sup _ (h.ran a ha hacc hi)
+    · rw [hany'] at hf; cases hf
+    · rw [hs]
+      refine ⟨?_, by simp [h.colon], ?_, ?_, ?_, ?_, ?_⟩
+      · intro c
+        simp only [List.mem_append]
+        constructor
+        · rintro (hc | hc)
+          · exact Or.inl ((h.opts c).mp hc)
+          · rcases hA c hc with h1 | h1
+            · exact Or.inr h1
+            · rw [h1]; exact Or.inl h.colon
+        · rintro (hc | hc)
+          · exact Or.inl ((h.opts c).mpr hc)
+          · exact Or.inr (hB c hc)
+      · intro f
+        simp only [List.map_append, List.map_cons, List.map_nil, List.mem_append, List.mem_singleton]
+        constructor
+        · rintro (hf | hf)
+          · exact Or.inl ((h.regs f).mp hf)
+          · exact Or.inr hf
+        · rintro (hf | hf)
+          · exact Or.inl ((h.regs f).mpr hf)
+          · exact Or.inr hf
+      · intro a ha hacc c hc
+        simp only [List.mem_append, List.mem_singleton] at hacc ⊢
+        rcases hacc with hacc | hacc
+        · exact Or.inl (h.appl a ha hacc c hc)
+        · have : a.d = m.d := hU a ha m hm hacc
+          rw [this] at hc
+          exact Or.inr hc
+      · intro f hf
+        simp only [List.mem_append, List.mem_singleton]
+        rcases hcalls_sub f hf with h1 | h1
+        · exact Or.inl (h.calls f h1)
+        · exact Or.inr h1
+      · intro a ha hacc hi
+        simp only [List.mem_append, List.mem_singleton] at hacc
+        rcases hacc with hacc | hacc
+        · exact hcalls_sup _ (h.ran a ha hacc hi)
+        · have hd : a.d = m.d := hU a ha m hm hacc
+          rw [hd] at hi
+          rw [hacc]
+          simp [hi]
+      · intro f hf
+        simp only [List.mem_append, List.mem_singleton] at hf
+        rcases hf with hf | hf
+        · exact h.univ f hf
+        · exact ⟨m, hm, hf.symm⟩
+
+/-- the whole pass -/
+theorem Sim.fold {e : Env} {U : List Mod} (hU : ∀ a ∈ U, ∀ b ∈ U, a.file = b.file → a.d = b.d) :
+    ∀ (seq : List Mod) (s : InitSt) (taken : List Char) (acc : List Str), (∀ m ∈ seq, m ∈ U) →
+      Sim e U s taken acc →
+      ∃ taken', Sim e U (foldS e.pers seq s) taken' (greedy e (seq.map Mod.pi) taken acc) := by
+  intro seq
+  induction seq with
+  | nil => intro s taken acc _ h; exact ⟨taken, by simpa [foldS, greedy] using h⟩
+  | cons m rest ih =>
+    intro s taken acc hsub h
+    have hm : m ∈ U := hsub m (by simp)
+    have hrest : ∀ x ∈ rest, x ∈ U := fun x hx => hsub x (by simp [hx])
+    obtain ⟨h1, h2, h3⟩ := h.step hU m hm
+    simp only [List.map_cons, Mod.pi, greedy, foldS, List.foldl_cons]
+    by_cases hin : m.file ∈ acc
+    · have : acc.contains m.file = true := by simpa using hin
+      simp only [this, if_true]
+      exact ih _ _ _ hrest (h1 hin)
+    · have : acc.contains m.file = false := by simpa using hin
+      simp only [this, Bool.false_eq_true, if_false]
+      by_cases hany : (applicable e m.d).any (taken.contains ·) = true
+      · simp only [hany, if_true]
+        exact ih _ _ _ hrest (h2 hin hany)
+      · have hany' : (applicable e m.d).any (taken.contains ·) = false := by simpa using hany
+        simp only [hany', Bool.false_eq_true, if_false]
+        exact ih _ _ _ hrest (h3 hin hany')
 
 end PdshVerif.Mod
